@@ -142,7 +142,7 @@ Definition no_merge (cls : list cluster) : bool :=
    label matches; insertion into a set *)
 Definition label_match (g lbl : grapheme) : bool :=
   strs_eqb (g_chars g) (g_chars lbl)
-  && (N.eqb (g_max g) (g_max lbl) || N.eqb (g_min g) (g_min lbl)).
+  && N.leb (g_min g) (g_min lbl) && N.leb (g_max lbl) (g_max g).
 
 Definition parent_states (es : list edge) (a : list nat) (lbl : grapheme) : list nat :=
   fold_left
